@@ -209,7 +209,9 @@ def analyse(ctx, T, ci, q, reader, writer, tmem, masks):
                 raise AnalysisError(f"{q}: indicator value {V!r} not modelled")
             label = "check-field=" + ("".join(str(I.simp(wire.items[p]).c) for p in fixed_check) if fixed_check else "received")
             ctx.ob("check/indicator-truth", f"{q} | {label}", ok, why, reader.loc)
-            if fixed_check and V is True:
+            if fixed_check and V is True and not ok:
+                # (a path that has pinned the data bits as well — a parity memo keyed by them — and whose one word IS a codeword
+                # reports True rightly: nothing was generated instead of verified)
                 sentinel_paths.append(label)
             continue
         # ---- CRC kinds
